@@ -110,6 +110,8 @@ func forcedData() []c01Prog {
 	add("object-sub-behind", gen.Seq(first(), gen.T("do1"), readObj("do1", ">"), &gen.Block{Kind: "sub", Default: -1, Kids: []*gen.Block{gen.T()}}))
 	add("object-sub-before", gen.Seq(&gen.Block{Kind: "sub", Default: -1, Kids: []*gen.Block{gen.T()}}, gen.T("do1"), readObj("do1", ">"), gen.T("do1"), readObj("do1", "==")))
 	add("object-in-sub", gen.Seq(first(), &gen.Block{Kind: "sub", Default: -1, Kids: []*gen.Block{gen.Seq(gen.T("do1"), readObj("do1", ">"))}}, readObj("do1", ">")))
+	add("object-decoy", gen.Seq(first(), gen.T("dx1"), readObj("dx1", ">"), gen.T("dx1"), readObj("dx1", "==")))
+	add("object-decoy-sub", gen.Seq(first(), gen.T("dx1"), &gen.Block{Kind: "sub", Default: -1, Kids: []*gen.Block{gen.Seq(gen.T(), readObj("dx1", ">"))}}, readObj("dx1", ">")))
 	add("condtask", gen.Seq(first(), &gen.Block{Kind: "sub", Default: -1, Kids: []*gen.Block{gen.T("w1")}},
 		&gen.Block{Kind: "condtask", Default: -1, Kids: []*gen.Block{gen.T(), gen.T(), gen.T()},
 			Conds: []*gen.Cond{nil, {Kind: "var", Var: "w1", Op: ">", Val: 0}, {Kind: "var", Var: "w1", Op: "==", Val: 0}}}))
@@ -541,7 +543,7 @@ func init() {
 			}
 			return runStep("C01", c, env, nil)
 		},
-		Rule: "block-structured programs (every legal ordered nesting pair of {xor,and,or,loop,conditional-flow task,sub-process} + data-flow programs in which a condition reads what a task on another, already joined token wrote (sub-process, nested, parallel block, loop, exclusive branch, conditional flows) + PRNG programs, depth<=3/4, half of them with task-written data variables read by later conditions, a quarter with conditions that cannot be evaluated: error trace, alternative not taken) x variable assignments steering the conditions x answer orders (all if <=limit else PRNG-drawn) run stepwise against the reference token game at every quiescent point, plus storm runs; the forced programs again with a deterministic schedule perturbation (the goroutine making the n-th hit of each of 21 instrumentation sites pauses 300 us); twin runs: three instances created from ONE parsed definitions value (a bystander parked at its first tasks, then two stepwise runs with opposite variable assignments), each against its own reference; non-trivial = >=1 gateway/conditional flow and (>=2 requests pending at once or a condition decided a route); distinct = descriptor hash",
+		Rule: "block-structured programs (every legal ordered nesting pair of {xor,and,or,loop,conditional-flow task,sub-process} + data-flow programs in which a condition reads what a task on another, already joined token wrote (sub-process, nested, parallel block, loop, exclusive branch, conditional flows) + PRNG programs, depth<=3/4, half of them with task-written data variables read by later conditions, a quarter with conditions that cannot be evaluated: error trace, alternative not taken) x variable assignments steering the conditions x answer orders (all if <=limit else PRNG-drawn) run stepwise against the reference token game at every quiescent point, plus storm runs; the forced programs again with a deterministic schedule perturbation (the goroutine making the n-th hit of each of 21 instrumentation sites pauses 300 us); twin runs: three instances created from ONE parsed definitions value (a bystander parked at its first tasks, then two stepwise runs with opposite variable assignments), each against its own reference; non-trivial = >=1 gateway/conditional flow and (>=2 requests pending at once or a condition decided a route); distinct = descriptor hash; forced data programs object-decoy / object-decoy-sub (a data object whose id differs from its name next to another one whose id is that name)",
 		Assumptions: []string{"programs are block-structured and data-race-free by construction (conditions read variables no concurrently live branch writes)", "reference token game is the oracle"},
 	})
 }
